@@ -114,7 +114,7 @@ pub static mut G: [u64; 16] = [0; 16];
 #[no_mangle]
 pub extern "C" fn phase(n: u64) -> u64 { std::hint::black_box(n) + 1 }
 #[inline(never)]
-fn scoped(k: u64) -> u64 { let mut loc = k; loc = loc.wrapping_add(phase(k)); let r = std::hint::black_box(loc); r }
+fn scoped(k: u64) -> u64 { let mut loc = k; let mut loc2 = k ^ 5; loc = loc.wrapping_add(phase(k)); loc2 = loc2.wrapping_add(loc); let r = std::hint::black_box(loc).wrapping_add(std::hint::black_box(loc2) & 1); r }
 fn wr(i: usize) { unsafe { let p = std::ptr::addr_of_mut!(G[i]); p.write_volatile(p.read_volatile().wrapping_add(0x0101010101010101)); } }
 fn wr_only(i: usize, v: u64) { unsafe { std::ptr::addr_of_mut!(G[i]).write_volatile(v); } }
 fn rd(i: usize) -> u64 { unsafe { std::ptr::addr_of!(G[i]).read_volatile() } }
@@ -254,8 +254,9 @@ fn one_history(bin: &std::path::Path, rng: &mut Rng, hw_delivers: bool) -> Resul
     let mut known: Vec<i32> = vec![main_tid];
     let mut wp_numbers: Vec<(u64, u32)> = vec![]; // (ordinal in this history = model number, impl number)
     let mut next_ord = 1u64;
-    let mut scoped_active = false;
-    let mut scoped_ord = 0u64;
+    // scoped expression watchpoints alive: (model number, implementation number, local's name, phase of creation)
+    let mut scoped: Vec<(u64, u32, &'static str, usize)> = vec![];
+    let mut phase_no = 0usize;
     let (mut n_ops, mut max_threads, mut n_hits) = (0usize, 1usize, 0usize);
     let mut n_scope_ends = 0usize;
     let sizes = [(BreakSize::Bytes1, 1u64), (BreakSize::Bytes2, 2), (BreakSize::Bytes4, 4), (BreakSize::Bytes8, 8)];
@@ -277,6 +278,15 @@ fn one_history(bin: &std::path::Path, rng: &mut Rng, hw_delivers: bool) -> Resul
         }
         known = tids.clone();
         max_threads = max_threads.max(known.len());
+        // execution has left the scope of every local watched in an earlier activation of `scoped`:
+        // those watchpoints must be gone by now, whether or not the debugger announced it
+        phase_no += 1;
+        let stale: Vec<(u64, u32, &'static str, usize)> = scoped.iter().filter(|x| x.3 < phase_no).cloned().collect();
+        for st in &stale {
+            events.push(format!("EOp (WRemoveNum {}) 0 0", cf::n(st.0 as u128)));
+            wp_numbers.retain(|n| n.0 != st.0);
+        }
+        scoped.retain(|x| x.3 >= phase_no);
         events.push(fmt_obs(&obs_threads(s.pid_now())?));
         // a batch of watchpoint commands
         for _ in 0..rng.range(0, 4) {
@@ -315,11 +325,12 @@ fn one_history(bin: &std::path::Path, rng: &mut Rng, hw_delivers: bool) -> Resul
                         cf::n(len as u128)
                     ));
                 }
-                6 if !scoped_active => {
-                    // scoped expression watchpoint on the local `loc` of the caller frame
+                6 if scoped.len() < 2 => {
+                    // scoped expression watchpoint on a local (`loc` / `loc2`, same scope) of the caller frame
+                    let name: &'static str = if scoped.iter().any(|x| x.2 == "loc") { "loc2" } else if scoped.iter().any(|x| x.2 == "loc2") { "loc" } else if rng.chance(1, 2) { "loc" } else { "loc2" };
                     let _ = s.dbg.set_frame_into_focus(1);
                     let (code, addr, err) = {
-                        let res = s.dbg.set_watchpoint_on_expr("loc", Dqe::Variable(Selector::by_name("loc", true)), BreakCondition::DataWrites);
+                        let res = s.dbg.set_watchpoint_on_expr(name, Dqe::Variable(Selector::by_name(name, true)), BreakCondition::DataWrites);
                         match &res {
                             Ok(v) => (0u32, v.address.as_usize() as u64, String::new()),
                             Err(e) => {
@@ -331,8 +342,7 @@ fn one_history(bin: &std::path::Path, rng: &mut Rng, hw_delivers: bool) -> Resul
                     if code == 0 {
                         let num = s.dbg.watchpoint_list().iter().map(|w| w.number).max().unwrap_or(0);
                         wp_numbers.push((next_ord, num));
-                        scoped_active = true;
-                        scoped_ord = next_ord;
+                        scoped.push((next_ord, num, name, phase_no));
                         next_ord += 1;
                     }
                     let _ = s.dbg.set_frame_into_focus(0);
@@ -341,7 +351,7 @@ fn one_history(bin: &std::path::Path, rng: &mut Rng, hw_delivers: bool) -> Resul
                     }
                     // a refused expression watchpoint has no address in the result: the model needs one that is not
                     // already observed, the stack slot of `loc` is never one of the G addresses
-                    let a = if addr != 0 { addr } else { 0x7fff_0000_0000 };
+                    let a = if addr != 0 { addr } else { 0x7fff_0000_0000 + if name == "loc" { 0 } else { 8 } };
                     events.push(format!(
                         "EOp (WAddExpr {} {} {} (Some 1)) {} 8",
                         cf::n(a as u128), cf::n(BreakSize::Bytes8 as u128), cf::n(BreakCondition::DataWrites as u128), cf::n(code as u128)
@@ -355,7 +365,7 @@ fn one_history(bin: &std::path::Path, rng: &mut Rng, hw_delivers: bool) -> Resul
                         Err(_) => 13,
                     };
                     wp_numbers.retain(|n| n.1 != num);
-                    if ord == scoped_ord { scoped_active = false; }
+                    scoped.retain(|x| x.0 != ord);
                     events.push(format!("EOp (WRemoveNum {}) {} 0", cf::n(ord as u128), cf::n(code)));
                 }
                 _ => {
@@ -387,12 +397,13 @@ fn one_history(bin: &std::path::Path, rng: &mut Rng, hw_delivers: bool) -> Resul
             let mut at_phase = false;
             for ev in evs {
                 match ev {
-                    Ev::Watchpoint { end_of_scope: true, .. } => {
+                    Ev::Watchpoint { end_of_scope: true, num, .. } => {
                         // the debugger removes a scoped watchpoint when execution leaves its scope
-                        scoped_active = false;
-                        wp_numbers.retain(|n| n.0 != scoped_ord);
-                        events.push(format!("EOp (WRemoveNum {}) 0 0", cf::n(scoped_ord as u128)));
-                        events.push(fmt_obs(&obs_threads(s.pid_now())?));
+                        if let Some(pos) = scoped.iter().position(|x| x.1 == num) {
+                            let st = scoped.remove(pos);
+                            wp_numbers.retain(|n| n.0 != st.0);
+                            events.push(format!("EOp (WRemoveNum {}) 0 0", cf::n(st.0 as u128)));
+                        }
                         n_scope_ends += 1;
                     }
                     Ev::Watchpoint { num, .. } => {
